@@ -53,6 +53,8 @@ func enumScenariosFor(prop string, depth int) []Scenario {
 		sharedFwd     bool // shared registration (policy last): the first callee handles timeouts itself, the one called does not
 		blockedChunk  bool // (with progressive+stalledCallee) a later chunk has already been refused: the callee's queue was full
 		stalledCaller bool // the caller does not read and its one-slot queue is full: a progressive result is being retried
+		finalRetry    bool // (with stalledCaller) the result being retried is the final one
+		ppt           bool // caller and callee announce payload passthru; results (progressive and final) come with ppt_* options
 	}
 	variants := []variant{{calleeCancels: true}, {}}
 	if prop == "C06" || prop == "C13" || prop == "C02" {
@@ -74,7 +76,11 @@ func enumScenariosFor(prop string, depth int) []Scenario {
 		variants = append(variants, variant{calleeCancels: true, progressive: true, stalledCallee: true, blockedChunk: true})
 	}
 	if prop == "C08" || prop == "C07" || prop == "C02" {
-		variants = append(variants, variant{calleeCancels: true, stalledCaller: true})
+		variants = append(variants, variant{calleeCancels: true, stalledCaller: true},
+			variant{calleeCancels: true, stalledCaller: true, finalRetry: true})
+	}
+	if prop == "C08" || prop == "C02" || prop == "C03" || prop == "C18" {
+		variants = append(variants, variant{calleeCancels: true, ppt: true})
 	}
 	for _, v := range variants {
 		calleeFeats := []string{"progressive_call_results"}
@@ -87,6 +93,10 @@ func enumScenariosFor(prop string, depth int) []Scenario {
 			calleeFeats = append(calleeFeats, "progressive_call_invocations")
 			callerFeats = append(callerFeats, "progressive_call_invocations")
 			callOpts = map[string]any{"receive_progress": true, "timeout": 3600000, "progress": true}
+		}
+		if v.ppt {
+			calleeFeats = append(calleeFeats, "payload_passthru_mode")
+			callerFeats = append(callerFeats, "payload_passthru_mode")
 		}
 		regOpts := map[string]any{}
 		if v.restart {
@@ -135,7 +145,12 @@ func enumScenariosFor(prop string, depth int) []Scenario {
 		}
 		if v.stalledCaller {
 			// the first progressive result cannot be queued: the callee's handler starts retrying
-			setup = append(setup, msg(2, 70, 1, map[string]any{"progress": true}, []any{"part1"}, map[string]any{}))
+			if v.finalRetry {
+				// ... or the final result: the call must stay answerable until the retry gets through or gives up
+				setup = append(setup, msg(2, 70, 1, map[string]any{}, []any{"final1"}, map[string]any{}))
+			} else {
+				setup = append(setup, msg(2, 70, 1, map[string]any{"progress": true}, []any{"part1"}, map[string]any{}))
+			}
 		}
 		if v.restart {
 			// time passes before a later chunk re-arms the timer (with the first chunk's value: the
@@ -172,6 +187,12 @@ func enumScenariosFor(prop string, depth int) []Scenario {
 				msg(1, 48, 1, map[string]any{"progress": true, "timeout": 1000}, "p", []any{6}, map[string]any{}),
 				msg(1, 48, 1, map[string]any{"timeout": 1000}, "p", []any{7}, map[string]any{}),
 				map[string]any{"op": "tick", "ms": 101})
+		}
+		if v.ppt {
+			alphabet = append(alphabet,
+				msg(2, 70, 1, map[string]any{"progress": true, "ppt_scheme": "mqtt"}, []any{"pptpart"}, map[string]any{}),
+				msg(2, 70, 1, map[string]any{"ppt_scheme": "mqtt", "ppt_serializer": "cbor"}, []any{"pptfinal"}, map[string]any{}),
+				msg(3, 48, 1, map[string]any{"ppt_scheme": "mqtt"}, "p", []any{"no-feature"}, map[string]any{}))
 		}
 		if v.stalledCaller {
 			alphabet = append(alphabet, map[string]any{"op": "tick", "ms": 6000}, map[string]any{"op": "tick", "ms": 61000},
